@@ -314,6 +314,45 @@ func main() {
 		runReset(out, next(), "bytes", lib.Bytes("a"), lib.DirectScript(lib.Bytes("a")), lib.Bytes("bb"), lib.DirectScript(lib.Bytes("bb")))
 	}
 
+	{ // nodes of the generated code (gendemo Msg3, Map__String__Msg3) as roots and as children: the whole
+		// read-back (incl. retained iterator keys) runs on them too
+		grng := lib.NewRng(fl.Seed + 77)
+		msg3 := func() *lib.Val {
+			v := &lib.Val{Kind: lib.KMap}
+			for _, f := range lib.Msg3Fields {
+				v.M = append(v.M, lib.Entry{K: f, V: lib.Int(int64(grng.Intn(2000)) - 1000)})
+			}
+			return v
+		}
+		for i := 0; i < 16; i++ {
+			s := msg3()
+			q := &lib.Val{Kind: lib.KMap}
+			for j, n := 0, grng.Intn(4); j < n; j++ {
+				q.M = append(q.M, lib.Entry{K: fmt.Sprintf("key%d", j), V: msg3()})
+			}
+			sspec := grng.GenSpec(s, true)
+			for sspec.Tag != 'S' {
+				sspec = grng.GenSpec(s, true)
+			}
+			qspec := &lib.NSpec{Tag: 'Q'}
+			for _, e := range q.M {
+				c := grng.GenSpec(e.V, true)
+				for c.Tag != 'S' {
+					c = grng.GenSpec(e.V, true)
+				}
+				qspec.K = append(qspec.K, e.K)
+				qspec.L = append(qspec.L, c)
+			}
+			muts := []*lib.Val{grng.Mutant(s)}
+			runCase(out, next(), "any", s, []*lib.Op{{Code: "XN", N: sspec}}, muts)
+			runCase(out, next(), "any", q, []*lib.Op{{Code: "XN", N: qspec}}, []*lib.Val{grng.Mutant(q)})
+			both := lib.List(s, q)
+			runCase(out, next(), "any", both, []*lib.Op{{Code: "BL", Hint: 2}, {Code: "AV"}, {Code: "XN", N: sspec}, {Code: "AV"}, {Code: "XN", N: qspec}, {Code: "FI"}}, nil)
+			inmap := lib.Map(lib.Entry{K: "s", V: s}, lib.Entry{K: "q", V: q})
+			runCase(out, next(), "map", inmap, []*lib.Op{{Code: "BM", Hint: 0}, {Code: "AE", Key: "s"}, {Code: "XN", N: sspec}, {Code: "AK"}, {Code: "X", V: lib.Str("q")}, {Code: "AV"}, {Code: "XN", N: qspec}, {Code: "FI"}}, nil)
+		}
+	}
+
 	// ---- generated: values x scripts
 	cfg := &lib.GenCfg{MaxDepth: 3, MaxWidth: 4, Links: true, UintBeyond: true, BadUTF8: true, NaNInf: true}
 	for i := 0; i < n; i++ {
